@@ -48,7 +48,9 @@ Record bus := mkBus {
   b_next : N;                        (* id of the next connection *)
   b_maxnames : N;                    (* limits.max_services_per_connection *)
   b_maxrules : N;                    (* limits.max_match_rules_per_connection *)
-  b_maxreplies : N                   (* limits.max_replies_per_connection *)
+  b_maxreplies : N;                  (* limits.max_replies_per_connection *)
+  b_uidcount : N;                    (* connections->completed_by_user for the one uid all clients share *)
+  b_maxconns : N                     (* limits.max_connections_per_user *)
 }.
 
 Inductive err :=
